@@ -36,12 +36,13 @@ type btcModel struct {
 	Paid     map[uint64]bool
 	Refunded map[uint64]bool
 	History  map[uint64][]bitcointypes.WithdrawalStatus
-	tips     []uint64 // voted tip before each tx of the block being judged
+	UserMax  map[uint64]uint64 // withdrawal id -> the user's latest fee ceiling (from the requests, not from the chain)
+	tips     []uint64          // voted tip before each tx of the block being judged
 }
 
 func newBtcModel(w *World) *btcModel {
 	m := &btcModel{w: w, Tip: w.Cfg.BtcStartTip, Voted: map[uint64][]byte{}, Keys: map[string]bool{}, Credited: map[string]int64{}, Proc: map[uint64]*procModel{},
-		Paid: map[uint64]bool{}, Refunded: map[uint64]bool{}, History: map[uint64][]bitcointypes.WithdrawalStatus{}}
+		Paid: map[uint64]bool{}, Refunded: map[uint64]bool{}, History: map[uint64][]bitcointypes.WithdrawalStatus{}, UserMax: map[uint64]uint64{}}
 	m.Voted[m.Tip] = w.Btc.Blocks[m.Tip].Hash
 	m.CurKey = relayerPubKey(w.BtcKeys[0], w.Cfg.KeySchnorr)
 	m.Keys[string(relayertypes.EncodePublicKey(m.CurKey))] = true
@@ -96,6 +97,41 @@ func refDepositScriptOK(version uint32, key *relayertypes.PublicKey, magic, evm,
 		return bytes.Equal(out0, append([]byte{txscript.OP_1, 32}, prog...))
 	}
 	return false
+}
+
+// refDepositScripts builds the output script(s) a deposit for (version, key, evm) must pay — the
+// same construction refDepositScriptOK checks, used by users who derive the address themselves
+// (for a key that is not registered yet).
+func refDepositScripts(version uint32, key *relayertypes.PublicKey, magic, evm []byte) (out0, out1 []byte, ok bool) {
+	if key == nil || len(evm) != 20 {
+		return nil, nil, false
+	}
+	switch k := key.GetKey().(type) {
+	case *relayertypes.PublicKey_Secp256K1:
+		switch version {
+		case 0:
+			s, err := txscript.NewScriptBuilder().AddData(evm).AddOp(txscript.OP_DROP).AddData(k.Secp256K1).AddOp(txscript.OP_CHECKSIG).Script()
+			if err != nil {
+				return nil, nil, false
+			}
+			return append([]byte{txscript.OP_0, 32}, sha(s)...), nil, true
+		case 1:
+			if len(magic) != 4 {
+				return nil, nil, false
+			}
+			return append([]byte{txscript.OP_0, 20}, btcHash160(k.Secp256K1)...), append([]byte{txscript.OP_RETURN, 24}, append(append([]byte{}, magic...), evm...)...), true
+		}
+	case *relayertypes.PublicKey_Schnorr:
+		if version != 0 {
+			return nil, nil, false
+		}
+		pk, err := schnorr.ParsePubKey(k.Schnorr)
+		if err != nil {
+			return nil, nil, false
+		}
+		return append([]byte{txscript.OP_1, 32}, schnorr.SerializePubKey(txscript.ComputeTaprootOutputKey(pk, evm))...), nil, true
+	}
+	return nil, nil, false
 }
 
 func refTax(value, rate, cap uint64) uint64 {
@@ -174,11 +210,31 @@ func (w *World) oracleBitcoin(bi *BlockInfo) {
 		}
 	}
 
-	// withdrawals created / changed by the execution block
+	// withdrawals created / changed by the execution block. The user's current fee ceiling is
+	// modelled from the requests themselves (not read back from the chain): set at creation, moved
+	// by every fee update the user sends while the withdrawal is pending or being processed.
 	if bi.MsgOK && bi.ReqErr == nil {
+		created := map[uint64]bool{}
 		for _, wd := range bi.Bridge.Withdraws {
 			w.probe("withdrawal-created")
-			_ = wd
+			if _, dup := m.UserMax[wd.Id]; !dup {
+				m.UserMax[wd.Id] = wd.TxPrice
+				created[wd.Id] = true
+			}
+		}
+		for _, rb := range bi.Bridge.ReplaceByFees {
+			st := bitcointypes.WITHDRAWAL_STATUS_UNSPECIFIED
+			if hist := m.History[rb.Id]; len(hist) > 0 {
+				st = hist[len(hist)-1]
+			} else if created[rb.Id] && w.Btc.addressPayable(w.wdAddress(bi, rb.Id)) {
+				st = bitcointypes.WITHDRAWAL_STATUS_PENDING
+			}
+			if st == bitcointypes.WITHDRAWAL_STATUS_PENDING || st == bitcointypes.WITHDRAWAL_STATUS_PROCESSING {
+				m.UserMax[rb.Id] = rb.TxPrice
+				if st == bitcointypes.WITHDRAWAL_STATUS_PROCESSING {
+					w.probe("fee-ceiling-moved-while-processing")
+				}
+			}
 		}
 	}
 
@@ -295,6 +351,12 @@ func (w *World) oracleBitcoin(bi *BlockInfo) {
 				w.probe("withdrawal-cancel-requested")
 			}
 		}
+		// the recorded fee ceiling is the user's latest request
+		if um, ok := m.UserMax[id]; ok && (cw.Status == bitcointypes.WITHDRAWAL_STATUS_PENDING || cw.Status == bitcointypes.WITHDRAWAL_STATUS_PROCESSING) && cw.MaxTxPrice != um {
+			if !w.seenOnce(fmt.Sprintf("usermax:%d:%d", id, um)) {
+				w.violate("C05", "fee-ceiling-not-as-requested", "user-max", "height %d: withdrawal %d (%s) records a maximum of %d sat/byte, the user's latest request is %d", b.Height, id, cw.Status, cw.MaxTxPrice, um)
+			}
+		}
 		// an undecodable address is refunded at creation
 		if len(hist) == 0 && !w.Btc.addressPayable(cw.Address) && cw.Status != bitcointypes.WITHDRAWAL_STATUS_CANCELED {
 			w.violate("C05", "unpayable-address-not-refunded", "unpayable", "height %d: withdrawal %d to %q (not a standard address of %s) was created with status %s", b.Height, id, cw.Address, w.Cfg.Network, cw.Status)
@@ -317,6 +379,16 @@ func (w *World) oracleBitcoin(bi *BlockInfo) {
 			}
 		}
 	}
+}
+
+// wdAddress: the address of a withdrawal created by this block's bridge requests.
+func (w *World) wdAddress(bi *BlockInfo, id uint64) string {
+	for _, wd := range bi.Bridge.Withdraws {
+		if wd.Id == id {
+			return wd.Address
+		}
+	}
+	return ""
 }
 
 func (w *World) seenOnce(key string) bool {
@@ -441,6 +513,10 @@ func (w *World) checkCreditedDeposit(bi *BlockInfo, txi int, msg *bitcointypes.M
 	// value-exact: what the module queued for the execution layer is value - tax and tax
 	for _, q := range cur.Bitcoin.EthTxQueue.Deposits {
 		if q != nil && bytes.Equal(q.Txid, txid) && q.Txout == d.OutputIndex {
+			// C20: whatever the parameters, what the chain itself computed never eats the deposit
+			if q.Tax >= value || q.Amount == 0 || q.Amount > value {
+				w.violate("C20", "unsafe-deposit-consequence", "tax-eats-value", "height %d: deposit of %d satoshi with rate %d cap %d was queued as amount %d + tax %d", b.Height, value, params.DepositTaxRate, params.MaxDepositTax, q.Amount, q.Tax)
+			}
 			if q.Amount != value-tax || q.Tax != tax {
 				fail("value-mismatch", "output of %d satoshi (rate %d, cap %d) queued as amount %d + tax %d, expected %d + %d", value, params.DepositTaxRate, params.MaxDepositTax, q.Amount, q.Tax, value-tax, tax)
 			}
@@ -536,8 +612,12 @@ func (w *World) checkPayoutOutputs(bi *BlockInfo, txi int, ids []uint64, tx *wir
 			fail("over-amount", "output %d pays %d, requested %d", i, out.Value, cw.RequestAmount)
 		}
 		// fee rate: fee / size <= max price, in exact arithmetic
-		if new(big.Int).SetUint64(fee).Cmp(new(big.Int).Mul(new(big.Int).SetUint64(cw.MaxTxPrice), big.NewInt(int64(len(raw))))) > 0 {
-			fail("over-fee", "fee %d over %d bytes exceeds the user's maximum of %d sat/byte (withdrawal %d)", fee, len(raw), cw.MaxTxPrice, id)
+		ceiling := cw.MaxTxPrice
+		if um, ok := w.M.Btc.UserMax[id]; ok {
+			ceiling = um // what the user asked for, whatever the chain recorded
+		}
+		if new(big.Int).SetUint64(fee).Cmp(new(big.Int).Mul(new(big.Int).SetUint64(ceiling), big.NewInt(int64(len(raw))))) > 0 {
+			fail("over-fee", "fee %d over %d bytes exceeds the user's maximum of %d sat/byte (withdrawal %d)", fee, len(raw), ceiling, id)
 		}
 		cand.Values = append(cand.Values, uint64(out.Value))
 	}
